@@ -59,6 +59,9 @@ func init() {
 }
 
 func runC16(c *Ctx, r *Report) {
+	importFoundation(c, r, "C16", "eof-chain")
+	r.Rule("C16/orderly-close", "no transport makes its Close abortive (SO_LINGER untouched): bytes accepted by Write reach the peer", 1)
+	checkNoAbortiveClose(c, r, "C16/orderly-close")
 	r.Rule("C16/child-lifetime", "the system transport ties the life of its ssh child to Close only (no SysProcAttr, no CommandContext)", 1)
 	checkChildLifetime(c, r, "C16/child-lifetime")
 	importFoundation(c, r, "C16", "telnet-negotiation")
